@@ -36,7 +36,21 @@ class SCache:
             self._etl = O.exact_rows(self.tl)
         return self._etl
 
+    @property
+    def order(self):
+        """topological order if the structure is large and acyclic (then exact values come from backward induction)"""
+        if not hasattr(self, "_order"):
+            self._order = O.topo_order(self.tl) if self.n > 9 else None
+        return self._order
+
     def _solve(self):
+        if self.order is not None:
+            self._v = O.dp_reach(self.players, self.etl, self.finals, self.order)
+            fin = set(self.finals)
+            T = [s for s in range(self.n) if self._v[s] > 0 and s not in fin]
+            d = O.dp_depth(self.tl, self.order)
+            self._A = F(max([d[s] for s in T] or [0]))
+            return
         self._v, self._A = O.reach_values(self.players, self.etl, self.finals, want_A=True)
 
     @property
@@ -70,6 +84,10 @@ class SCache:
     def reward_game(self, ctl, restrict1=None, restrict2=None):
         key = (repr(ctl), repr(restrict1), repr(restrict2))
         rg = self._rg.get(key)
+        if rg is None and self.order is not None:
+            order = O.topo_order(ctl)
+            if order is not None:
+                rg = O.DPRewardGame(self.players, ctl, order, restrict1, restrict2)
         if rg is None:
             rg = O.RewardGame(self.players, ctl, restrict1, restrict2)
             if len(self._rg) > 16:
